@@ -275,6 +275,15 @@ def trace_property(pid, tier, seed, workdir):
             results_, paths_ = run_shards(pid, bindir, shards_, seed, tier, workdir)
             for f in futs:
                 mcs_.append(expect_mc_ok(f.result()))
+        # a few shards from the build WITHOUT overflow checks: arithmetic that panics in the checked build
+        # (and is then C19's business) wraps silently there and must still give the right counters
+        if pid in ("C03", "C14"):
+            plain = build_harness("plain")
+            extra = [("random", 3000), ("contact", 3000), ("confined", 3000)] if tier == "quick" else [("random", 20000), ("contact", 20000), ("confined", 20000)]
+            r2, p2 = run_shards(pid, plain, extra, seed + 500, tier, os.path.join(workdir, "plain"))
+            results_ = results_ + r2
+            paths_ = paths_ + p2
+            shards_ = list(shards_) + [("plain:" + d, n) for d, n in extra]
         return mcs_, shards_, results_, paths_
 
     # the three engines run side by side: impl->spec traces (+ spec-level models), spec->impl replay,
